@@ -29,6 +29,7 @@ struct Cfg {
   int gun_n = 0;  // > 0: the user changed the gun's multiplicity (/gun/number n) before the run
   bool apply_explicit = false; // after SetConfiguration the user calls ApplyConfiguration() himself (the /bxdecay0/generator/apply command)
   int prev = -1;  // >= 0: index of a configuration the same action object ran first (then SetConfiguration to this one)
+  bool grab = false; // with prev: DestroyConfiguration(), then the configuration edited in place through GrabConfiguration() (only the fields this request needs) + SetConfigHasChanged(true): what the macro commands do
   std::string key() const
   {
     std::ostringstream s;
@@ -39,7 +40,7 @@ struct Cfg {
     s << ":v" << vertex;
     if (nev != 3) s << ":n" << nev;
     if (gun_n) s << ":gun" << gun_n;
-    if (prev >= 0) s << ":after" << prev << (apply_explicit ? "+apply" : "");
+    if (prev >= 0) s << ":after" << prev << (apply_explicit ? "+apply" : "") << (grab ? "+grab" : "");
     return s.str();
   }
 };
@@ -172,7 +173,29 @@ static std::string run_cfg(const Cfg & c, const std::set<std::string> & bkg, con
         try { action.GeneratePrimaries(&ev0); } catch (std::exception &) {}
       }
       G4RunManager::GetRunManager()->aborts = 0;
-      action.SetConfiguration(ci);
+      if (c.grab) {
+        action.DestroyConfiguration();
+        auto & gc = action.GrabConfiguration();
+        gc.decay_category = ci.decay_category;
+        gc.nuclide = ci.nuclide;
+        gc.seed = ci.seed;
+        if (c.category == "dbd") {
+          gc.dbd_mode = ci.dbd_mode;
+          gc.dbd_level = ci.dbd_level;
+          if (c.emin > 0) gc.dbd_min_energy_MeV = ci.dbd_min_energy_MeV;
+          if (c.emax > 0) gc.dbd_max_energy_MeV = ci.dbd_max_energy_MeV;
+        }
+        if (c.mdl) {
+          gc.use_mdl = true;
+          gc.mdl_target_name = ci.mdl_target_name;
+          gc.mdl_target_rank = ci.mdl_target_rank;
+          gc.mdl_cone_longitude = ci.mdl_cone_longitude;
+          gc.mdl_cone_colatitude = ci.mdl_cone_colatitude;
+          gc.mdl_cone_aperture = ci.mdl_cone_aperture;
+          gc.mdl_cone_aperture2 = ci.mdl_cone_aperture2;
+        }
+        action.SetConfigHasChanged(true);
+      } else action.SetConfiguration(ci);
       if (c.apply_explicit) {
         try { action.ApplyConfiguration(); } catch (std::exception &) {}
         G4RunManager::GetRunManager()->aborts = 0;
@@ -375,6 +398,10 @@ int main(int argc, char ** argv)
           g.prev = (int)p;
           g.apply_explicit = ap != 0;
           cfgs.push_back(g);
+          if (ap == 0) {
+            g.grab = true;
+            cfgs.push_back(g);
+          }
         }
     }
   }
